@@ -5,7 +5,7 @@ import itertools
 
 from hypothesis import strategies as st
 
-from .. import cases, common, env, oracles, preds, refmodels, runner, strategies as S, sut
+from .. import fuzz_target, cases, common, env, oracles, preds, refmodels, runner, strategies as S, sut
 from ..runner import Failure, Leg, Result
 
 PROP = "C04"
@@ -103,6 +103,7 @@ def legs(tier):
         Leg("exhaustive-small", evaluate,
             "all multisets of <=7 items from 1..C for C in {5,6,7,8,10} (quick: 1/40 slice); same rule",
             enum=exhaustive_cases, valid=valid, exhaustive=True, scope="multisets(<=7 from 1..C), C in {5,6,7,8,10}"),
+        fuzz_target.fuzz_leg(PROP, 80000, evaluate, valid),
     ]
 
 
